@@ -55,6 +55,10 @@ let () =
       (match go_registry_verdict reg with
        | Some v -> Printf.printf "%s REG %s\n" id (if v then "true" else "false")
        | None -> Printf.printf "%s UNJUDGED\n" id)
+    | [id; "W"; hr; hp; hf] ->
+      let unh h = if h = "-" then [] else str_of_hex h in
+      let r = { r_registry = unh hr; r_repository = unh hp; r_reference = unh hf } in
+      Printf.printf "%s VALID %s\n" id (if validate avail go_vr r then "true" else "false")
     | [id; "F"; hr; hp; hf] ->
       let unh h = if h = "-" then [] else str_of_hex h in
       let r = { r_registry = unh hr; r_repository = unh hp; r_reference = unh hf } in
